@@ -210,9 +210,23 @@ fn main() {
     let mut pending: Option<Pending> = None; // between `hist` and `build`
     let mut hist: Option<Hist> = None; // between `build` and `endhist`
 
+    let mut ext_left: usize = 0; // `#!extend N` seen: plain pushes still to be buffered
+    let mut ext_buf: Vec<run::ExtItem> = Vec::new();
+
     for (i, raw) in input.lines().enumerate() {
         let lineno = i + 1;
         let line = raw.trim_end();
+        if let Some(n) = line.strip_prefix("#!extend ") {
+            // harness directive (a comment for every other reader of the history): the next N
+            // plain `push` lines are executed as the elements of one `Extend::extend` call
+            if let Some(h) = hist.as_mut() {
+                if !ext_buf.is_empty() {
+                    h.run_extend(std::mem::take(&mut ext_buf));
+                }
+            }
+            ext_left = n.trim().parse::<usize>().unwrap_or(0);
+            continue;
+        }
         if line.is_empty() || line.starts_with('#') {
             continue;
         }
@@ -237,6 +251,16 @@ fn main() {
         }
 
         mark_progress(None);
+        // anything but a plain `push` ends the run of elements of a pending `extend`
+        if kw != "push" || ext_left == 0 {
+            ext_left = 0;
+            if !ext_buf.is_empty() {
+                if let Some(h) = hist.as_mut() {
+                    h.run_extend(std::mem::take(&mut ext_buf));
+                }
+                ext_buf.clear();
+            }
+        }
         if kw == "endhist" {
             match hist.take() {
                 Some(h) => h.finish(),
@@ -300,6 +324,16 @@ fn main() {
         }
         let k = h.next_op;
         h.next_op += 1;
+        if ext_left > 0 && h.supports_extend() {
+            if let Some(script::Op::Push { cid, script, front: false }) = &op {
+                ext_buf.push(run::ExtItem { k, line: line.to_string(), cid: *cid, script: script.clone() });
+                ext_left -= 1;
+                if ext_left == 0 {
+                    h.run_extend(std::mem::take(&mut ext_buf));
+                }
+                continue;
+            }
+        }
         logf!("op {k} {line}");
         match op {
             Some(op) => h.run_op(op),
